@@ -26,7 +26,8 @@ RULE = (
     "rich context; (ctx) a pool of geometries x every parent kind {none, chromosome with/without sequence, chunk windows} "
     "x metadata profiles x qualifier profiles (int/bool/float/empty values) for the four interval classes, genes of 1-3 "
     "transcripts, feature collections, variant collections and AnnotationCollections (gene/feature/variant sets x bounds x "
-    "completely_within). Every object x every chain of <=3 transitions; every object x every hash seed; every "
+    "completely_within). Every object x every chain of <=3 transitions (quick tier: <=3 on a sub-family of every class - the rich "
+    "metadata/qualifier profile - and <=2 (single hops for parent-less geometry copies and collections with explicit bounds) elsewhere; the bound is the key 'd' of the spec); every object x every hash seed; every "
     "permutation of qualifier key/value insertion order; every single-field edit. Non-trivial = chain of length >=2 on an "
     "object with qualifiers, a parent or children."
 )
@@ -44,7 +45,7 @@ ASSUMPTIONS = [
     "the schema (tests/io/test_models.py::test_dump_annotation_collection) is an extra leg reported under its own signature",
 ]
 
-NSH = 48
+NSH = {"quick": 16, "thorough": 32}  # every shard starts one sub-process per hash seed (~0.9 core-s each)
 SEEDS = {"quick": [0, 1, 2, 3], "thorough": [0, 1, 2, 3, 7, 42, 1000, 4294967295]}
 MAX_DEPTH = 3
 LIVE_DUMP_LEG = False  # dumping a LIVE AnnotationCollection (not a model instance) through the schema is outside the statement ("data-model load/dump")
@@ -57,13 +58,13 @@ def world_description(tier):
     pi = W.perm_items(tier)
     return (
         f"{n} objects (geom N={W.TIERS[tier]['Ng']} k<={W.TIERS[tier]['kg']}, ctx N={W.TIERS[tier]['Nc']}) x all chains of <= {MAX_DEPTH} "
-        f"transitions; hash seeds {SEEDS[tier]}; {len(pi)} permutation bases / {sum(W.n_perms(x['q']) for x in pi)} qualifier orders "
+        f"transitions ({sum(1 for x in W.corpus(tier) if x.get('d', MAX_DEPTH) < MAX_DEPTH)} of them: chains of <= 2 or single hops); hash seeds {SEEDS[tier]}; {len(pi)} permutation bases / {sum(W.n_perms(x['q']) for x in pi)} qualifier orders "
         f"per seed; all single-field edits of the objects without / with whole-chromosome parent"
     )
 
 
 def shards(tier, seed):
-    return [{"tier": tier, "i": i, "n": NSH} for i in range(NSH)]
+    return [{"tier": tier, "i": i, "n": NSH[tier]} for i in range(NSH[tier])]
 
 
 def pkind(spec):
@@ -138,7 +139,7 @@ def check_roundtrips(res, spec, only_chain=None):
             res.note("rt", f"{c}:{t}:equal")
             if rich and depth + 1 >= 2:
                 res.nontriv((json.dumps(spec, sort_keys=True), tuple(ch)))
-            if depth + 1 < MAX_DEPTH:
+            if depth + 1 < spec.get("d", MAX_DEPTH):
                 step(succ, ch)
 
     step(origin, [])
@@ -299,9 +300,11 @@ def compare_sweep(res, specs, perms, base_recs, base_perms, base_menu, results, 
                 else:
                     res.note("seed", "digest_object:same")
     # the str-hash must really differ between the configurations (vacuity guard of the axis)
-    if len(set(probes.values())) < len(probes):
-        raise RuntimeError(f"C08: PYTHONHASHSEED axis is not effective in the sub-processes: {probes}")
-    res.note("axis", f"distinct-str-hash-configurations:{len(probes)}")
+    mine = hash("c08-probe") & 0xFFFF
+    for s_, pr in probes.items():
+        if (str(s_) == str(me)) != (pr == mine) or len(set(probes.values())) < len(probes):
+            raise RuntimeError(f"C08: PYTHONHASHSEED axis is not effective in the sub-processes: {probes} (in-process seed {me}: {mine})")
+        res.note("axis", f"str-hash-of-seed-{s_}-{'equals' if pr == mine else 'differs-from'}-in-process")
     allp = [(None, base_perms)] + [(s, results[s]["perms"]) for s in sorted(results)]
     for k, item in enumerate(perms):
         ref = base_perms[k]["distinct"][0][0] if base_perms[k]["distinct"] else None
@@ -319,24 +322,46 @@ def compare_sweep(res, specs, perms, base_recs, base_perms, base_menu, results, 
 
 
 # ---------------------------------------------------------------------------------------------------------------------
+SWEEP_SLICES = {"quick": 1, "thorough": 4}
+
+
+def sweep_units(tier, i, n):
+    """the configuration sweep is cut into units (hash seed, slice k of K of the corpus and of the permutation world);
+    unit u is run by shard u mod n, one sub-process per unit (quick: 4 units = 4 seeds x the whole corpus)"""
+    K = SWEEP_SLICES[tier]
+    units = [(seed, k) for seed in SEEDS[tier] for k in range(K)]
+    mine = {}
+    for u, (seed, k) in enumerate(units):
+        if u % n == i:
+            mine.setdefault(k, []).append(seed)
+    return K, mine
+
+
 def run_shard(shard):
     res = ShardResult()
     tier, i, n = shard["tier"], shard["i"], shard["n"]
-    specs = [s for idx, s in enumerate(W.corpus(tier)) if idx % n == i]
-    perms = [{"spec": it, "mod": [i, n]} for it in W.perm_items(tier)]
+    corpus = W.corpus(tier)
+    specs = [s for idx, s in enumerate(corpus) if idx % n == i]
     me = os.environ.get("PYTHONHASHSEED", "random")
-    sweep = Sweep(SEEDS[tier], {"specs": specs, "perms": perms, "menu": i == 0})
+    K, mine = sweep_units(tier, i, n)
+    sweeps = []
     try:
+        for k in sorted(mine):
+            sw_specs = corpus[k::K]
+            sw_perms = [{"spec": it, "mod": [k, K]} for it in W.perm_items(tier)]
+            sweeps.append((k, sw_specs, sw_perms, Sweep(mine[k], {"specs": sw_specs, "perms": sw_perms, "menu": k == 0})))
         for spec in specs:
             check_roundtrips(res, spec)
             check_sensitivity(res, spec)
-        base_recs = [W.record(s) for s in specs]
-        base_perms = [W.perm_record(it) for it in perms]
-        base_menu = W.digest_menu() if i == 0 else None
-        results = sweep.collect()
+        for k, sw_specs, sw_perms, sweep in sweeps:
+            base_recs = [W.record(s) for s in sw_specs]
+            base_perms = [W.perm_record(it) for it in sw_perms]
+            base_menu = W.digest_menu() if k == 0 else None
+            results = sweep.collect()
+            compare_sweep(res, sw_specs, sw_perms, base_recs, base_perms, base_menu, results, me)
     finally:
-        sweep.close()
-    compare_sweep(res, specs, perms, base_recs, base_perms, base_menu, results, me)
+        for _, _, _, sweep in sweeps:
+            sweep.close()
     if specs:
         res.sample({"spec": specs[0], "chain": ["dict", "json", "pickle"]})
         res.sample({"spec": specs[-1], "seeds": SEEDS[tier]})
